@@ -984,6 +984,10 @@ func (e *Ex) runScenario() core.Result {
 			case "x":
 				cc.c.SetWriteDeadline(time.Now().Add(ioTimeout))
 				req := e.buildRequest(id, it)
+				// The request is written while the answer is being read: a write that fails or stalls (nobody
+				// reads the upload: a hijacker, a skipped or failed round trip, an early answer, and then the
+				// close) must not keep the harness from seeing what the peer did send and that it closed.
+				var send func() error
 				if e.conn["mode"] == "half" {
 					// this request's remainder plus the first half of the next one in ONE write; the
 					// client then waits for this response before sending the rest of the next request
@@ -996,28 +1000,43 @@ func (e *Ex) runScenario() core.Result {
 							out = append(append([]byte{}, out...), nreq[:halfSent]...)
 						}
 					}
-					if _, err := cc.c.Write(out); err != nil {
-						alive = false
-						continue
-					}
+					send = func() error { _, err := cc.c.Write(out); return err }
 				} else if e.conn["mode"] == "dribble" {
-					for i := 0; i < len(req); i += 7 {
-						j := i + 7
-						if j > len(req) {
-							j = len(req)
+					send = func() error {
+						for i := 0; i < len(req); i += 7 {
+							j := i + 7
+							if j > len(req) {
+								j = len(req)
+							}
+							if _, err := cc.c.Write(req[i:j]); err != nil {
+								return err
+							}
 						}
-						cc.c.Write(req[i:j])
+						return nil
 					}
 				} else if earlyOK(it) {
-					if err := e.sendGated(cc, req, id); err != nil {
-						alive = false
-						continue
-					}
-				} else if _, err := cc.c.Write(req); err != nil {
-					alive = false
-					continue
+					send = func() error { return e.sendGated(cc, req, id) }
+				} else {
+					send = func() error { _, err := cc.c.Write(req); return err }
+				}
+				wdone := make(chan error, 1)
+				if earlyOK(it) {
+					// the gated upload reads (peeks) the connection itself while it waits: it runs first
+					wdone <- send()
+				} else {
+					go func() { wdone <- send() }()
 				}
 				res, body, berr := cc.readResponse(it.s("m", "GET"))
+				var werr error
+				select {
+				case werr = <-wdone:
+				case <-time.After(ioTimeout):
+					cc.c.SetWriteDeadline(time.Now()) // unblock a writer nobody reads from
+					werr = <-wdone
+				}
+				if werr != nil {
+					core.Count("client:request-write-failed")
+				}
 				if res == nil {
 					alive = false
 					continue
